@@ -760,6 +760,10 @@ func (s *State) applyFunction(name string, fn object.Object, args []object.Objec
 		s.env.TriggerNoCache()
 		return res
 	}
+	// Don't cache functions: a returned closure carries the mutable environment of this very call.
+	if res.Type() == object.FUNC {
+		return res
+	}
 	// Don't cache errors, as it could be due to binding for instance.
 	if res.Type() == object.ERROR {
 		log.Debugf("Cache miss for %s %v, not caching error result", function.CacheKey, args)
